@@ -553,6 +553,7 @@ func genValue(c *Ctx, t *TDesc, depth int, o GenOpts) *VDesc {
 		v.St = StUnknown
 		if o.Refine && c.G(2) == 1 {
 			v.Ref = genRef(c, t)
+			v.normalizeCollapsed()
 		}
 		return v
 	}
@@ -908,3 +909,36 @@ func (v *VDesc) AllMarks(into map[string]bool) {
 }
 
 var _ = tape.Gen
+
+// normalizeCollapsed rewrites the description of a refined unknown that the documented rules
+// collapse to a known value (equal inclusive bounds on a non-null number; a non-null collection
+// of known length zero; a non-null list of known length), so that descriptions stay the ground truth.
+func (v *VDesc) normalizeCollapsed() {
+	r := v.Ref
+	if v.St != StUnknown || r == nil || !r.NotNull {
+		return
+	}
+	switch v.T.K {
+	case KNumber:
+		if r.HasLo && r.HasHi && r.LoInc && r.HiInc && r.Lo.Float().Cmp(r.Hi.Float()) == 0 {
+			v.St, v.Ref, v.Num = StKnown, nil, r.Lo
+		}
+	case KList, KSet, KMap:
+		if !(r.HasMin && r.HasMax && r.MinLen == r.MaxLen) {
+			return
+		}
+		switch {
+		case r.MinLen == 0:
+			v.St, v.Ref, v.Elems, v.Keys = StKnown, nil, nil, nil
+		case v.T.K == KList:
+			v.St, v.Ref, v.Keys = StKnown, nil, nil
+			v.Elems = nil
+			for i := 0; i < r.MinLen; i++ {
+				v.Elems = append(v.Elems, &VDesc{T: v.T.Elem, St: StUnknown})
+			}
+		case v.T.K == KSet && r.MinLen == 1:
+			v.St, v.Ref, v.Keys = StKnown, nil, nil
+			v.Elems = []*VDesc{{T: v.T.Elem, St: StUnknown}}
+		}
+	}
+}
